@@ -178,15 +178,28 @@ def recipient(draw):
     return "%s+ext@%s" % (u, d)
 
 
+WIDE_POOL = ["joe@a.example", "ann@b.example", "list@sub.a.example", "x@c.test", "joe@other.test", "subscriber-with-a-long-name@deep.sub.a.example",
+             "ann@x.b.example", "list+ext@a.example", "x@example", "joe", "ann%b.example@a.example", "J@A.EXAMPLE"]
+
+
 @st.composite
 def scenario(draw):
     sc = {"controls": draw(controls_strategy()),
           "sender": draw(st.sampled_from(["s@other.test", "", "list-owner-@host.test-@[]", "o-@h-@[]", "-@[]", "x-@[]", "#@[]"])),
           "rcpts": draw(st.lists(recipient(), min_size=1, max_size=12))}
+    if draw(st.integers(0, 7)) == 0:
+        # a mailing-list sized envelope: the per-channel record buffers of the preprocessing step (1 kB each) are flushed several times
+        # while the other channel still holds pending records (added after seeded change C10-D)
+        sc["rcpts"] = draw(st.lists(st.sampled_from(WIDE_POOL), min_size=30, max_size=110))
     if draw(st.integers(0, 2)) == 0:
         c2 = draw(controls_strategy())
         sc["hup"] = {k: c2[k] for k in ("locals", "virtualdomains", "percenthack", "envnoathost") if k in c2}
         sc["rcpts2"] = draw(st.lists(recipient(), min_size=1, max_size=6))
+        if draw(st.integers(0, 1)) == 0:
+            # the administrator edits the files once more and sends a second HUP while the daemon is in the middle of re-reading them
+            # (it has read locals and is about to open virtualdomains): the last HUP still follows the last edit, so the last edit applies
+            c3 = draw(controls_strategy())
+            sc["hup2"] = {k: c3[k] for k in ("locals", "virtualdomains") if k in c3}
     return sc
 
 
@@ -231,6 +244,9 @@ def run_one(w, sc, stats):
     for k, v in sc["controls"].items():
         w.h.control(k, v)
     w.limits = (120, 120)
+    w.extra_env = {}
+    if "hup2" in sc:
+        w.extra_env = {"VSHIM_PAUSE": "send.qmail-send|control/virtualdomains|1"}     # occurrence 0 is the start-up read
     try:
         w.start()
         ev = w.wait_event()
@@ -253,6 +269,19 @@ def run_one(w, sc, stats):
             w.signal(signal.SIGHUP)
             ev = w.wait_event()          # ("I",)
             ev = w.wait_event()
+            final = dict(sc["hup"])
+            if "hup2" in sc:
+                if ev[0] != "P":
+                    return "the daemon did not re-read control/virtualdomains after HUP (event %r)" % (ev[:1],), nt
+                for k in ("locals", "virtualdomains"):
+                    w.h.control(k, sc["hup2"].get(k))
+                final = dict(sc["hup2"])
+                w.signal(signal.SIGHUP)
+                w.resume()
+                stats.cls("hup_during_reread")
+                ev = w.wait_event()
+                if ev[0] == "I":
+                    ev = w.wait_event()
             if ev[0] != "Q":
                 return "daemon stopped after HUP: %r" % (ev,), nt
             rc, n2 = w.inject(L(sc["sender"]), [L(r) for r in sc["rcpts2"]], b"Subject: y\n\nb\n")
@@ -263,8 +292,8 @@ def run_one(w, sc, stats):
             # after HUP locals and virtualdomains are re-read; percenthack and envnoathost are not (qmail-send.9)
             c2 = dict(sc["controls"])
             for k in ("locals", "virtualdomains"):
-                if k in sc["hup"]:
-                    c2[k] = sc["hup"][k]
+                if k in final:
+                    c2[k] = final[k]
                 else:
                     c2.pop(k, None)
             cfg2 = cfg_of(c2)
@@ -302,11 +331,29 @@ def worker(job):
     return stats
 
 
+def wide_fixed():
+    """envelopes whose local and remote record volumes straddle 1024 and 2048 bytes in every combination (60 local x 3 remote, ...)"""
+    ctl = {"me": "me.test\n", "locals": "a.example\nb.example\n", "virtualdomains": "c.test:vuser\n"}
+    out = []
+    for nloc, nrem, every in ((60, 3, 20), (3, 60, 1), (45, 45, 1), (33, 1, 33), (1, 33, 1), (90, 90, 2), (70, 2, 35)):
+        rc = []
+        li = ri = 0
+        while li < nloc or ri < nrem:
+            if li < nloc:
+                rc.append("subscriber-%03d@%s" % (li, ("a.example", "b.example", "c.test")[li % 3]))
+                li += 1
+            if ri < nrem and (li % every == 0 or li >= nloc):
+                rc.append("remote-after-%03d@far%d.test" % (ri, ri % 4))
+                ri += 1
+        out.append({"controls": ctl, "sender": "list-owner-@host.test-@[]", "rcpts": rc})
+    return out
+
+
 def run(ctx):
     sandbox.ensure_shim()
     tree = vlib.Tree().make("qmail-queue", "qmail-send", "qmail-clean")
     nw = vlib.NCPU
-    fixed = []
+    fixed = wide_fixed()
     d = os.path.join(vlib.VERIF, "corpus", "C10", "regress")
     if os.path.isdir(d):
         for f in sorted(os.listdir(d)):
